@@ -22,8 +22,7 @@ import Gts.Model.OpsAuto
 namespace Gts
 
 def evalOp (op : String) (args : List Sexp) : Option String :=
-  [evalCore, evalOrigin, evalNuc, evalCache, evalFeat, evalIO, evalMem, evalCli, evalCliFault, evalReg, evalGb, evalLocator, evalRepair, evalParse, evalGenBank, evalKeyEnc, evalGbSlice].firstM fun h => h op args
-  [evalCore, evalOrigin, evalNuc, evalCache, evalFeat, evalIO, evalMem, evalCli, evalReg, evalGb, evalLocator, evalRepair, evalParse, evalGenBank, evalKeyEnc, evalGbSlice, evalAuto].firstM fun h => h op args
+  [evalCore, evalOrigin, evalNuc, evalCache, evalFeat, evalIO, evalMem, evalCli, evalCliFault, evalReg, evalGb, evalLocator, evalRepair, evalParse, evalGenBank, evalKeyEnc, evalGbSlice, evalAuto].firstM fun h => h op args
 
 def evalLine (line : String) : String :=
   match Sexp.parseLine line with
